@@ -86,9 +86,7 @@ func (farmDrv) Random(rng *rand.Rand) chain.M {
 // pool ids are farm-<sequence>; the first pool created in this chain is pool
 // A, the second pool B.
 func (farmDrv) pools(e *env) (a, b string) {
-	var ids []string
-	e.c.K.Farm.IteratorAllPools(e.c.Ctx(), func(p farmtypes.FarmPool) { ids = append(ids, p.Id) })
-	a, b = "farm-1", "farm-2"
+	a, b = "farm-998", "farm-999" // not created (yet): no such pool
 	if first, ok := e.x["poolA"]; ok {
 		a = first
 	}
@@ -102,10 +100,10 @@ func (m farmDrv) create(e *env, key string, two bool) opRes {
 	before := map[string]bool{}
 	e.c.K.Farm.IteratorAllPools(e.c.Ctx(), func(p farmtypes.FarmPool) { before[p.Id] = true })
 	rpb := sdk.NewCoins(sdk.NewInt64Coin("rwa", 10))
-	tot := sdk.NewCoins(sdk.NewInt64Coin("rwa", 300))
+	tot := sdk.NewCoins(sdk.NewInt64Coin("rwa", 120))
 	if two {
 		rpb = rpb.Add(sdk.NewInt64Coin("rwb", 5))
-		tot = tot.Add(sdk.NewInt64Coin("rwb", 150))
+		tot = tot.Add(sdk.NewInt64Coin("rwb", 60))
 	}
 	r := e.tx("u1", &farmtypes.MsgCreatePool{Description: "p", LptDenom: "lpt-1", StartHeight: e.c.Height + 2,
 		RewardPerBlock: rpb, TotalReward: tot, Editable: true, Creator: e.addr("u1")})
@@ -142,7 +140,7 @@ func (m farmDrv) RunOp(e *env, op string) opRes {
 	case "fm_destroy2":
 		return e.tx("u1", &farmtypes.MsgDestroyPool{PoolId: b, Creator: u})
 	case "fm_expire": // run past the end of every pool: the end blocker refunds
-		return e.blocks(40)
+		return e.blocks(22)
 	}
 	return opRes{log: "unknown op " + op}
 }
